@@ -79,6 +79,8 @@ NA = {
 NOT_YET = "not reached yet by the tpv engine in this session (see DESIGN 9: a property whose obligations are not generated is not claimed)"
 for _p in ("C04", "C08", "C12", "C14"):
     CLAIMED[_p]["cat"] = "other"  # every obligation is schematic in a structure size -> not counted as proof
+FALLBACK_NOTE = " Loop contracts name loop state by local names that are re-aligned with the current source on every run (use signatures + loop-carried role, contracts/baseline_locals.json); a loop whose contract no longer fits gives UNDECIDED (exit 2), never a VIOLATION by itself."
+FALLBACK_TECH = "; behind an UNDECIDED loop contract (and always in the thorough tier) a BOUNDED native run-time contract check on enumerated instances (replays/loop_fallback.py) -- it can only add a violation with a replayed concrete input, is labelled bounded and is never counted as proved"
 props = [json.loads(l)["id"] for l in open(os.path.join(V, "properties.jsonl"))]
 checks = []
 for p in props:
@@ -92,8 +94,8 @@ for p in props:
             "replay_cmd_template": "/venv/bin/python {path}",
             "engine": "tpv",
             "level_claimed": {"category": c["cat"], "text": c["text"], "design_ref": c["sec"]},
-            "level_note": c["note"],
-            "technique": c["tech"],
+            "level_note": c["note"] + (FALLBACK_NOTE if p in ("C01", "C02", "C04", "C16") else ""),
+            "technique": c["tech"] + (FALLBACK_TECH if p in ("C01", "C02", "C04", "C16") else ""),
         })
 na = [{"property_id": p, "reason": NA.get(p, NOT_YET)} for p in props if p not in CLAIMED]
 m = {
